@@ -26,6 +26,7 @@ type carried struct {
 	guard string   // Go condition over p (may be "")
 	kind  string   // scalar | string | bytes | slice | value | skip
 	typ   types.Type
+	viaArray bool // written with Write<T>Array: the count is a 16-bit field
 }
 
 func cmdGenRT(args []string) {
@@ -87,6 +88,18 @@ func cmdGenRT(args []string) {
 	for _, t := range sts {
 		fmt.Fprintf(&buf, "func vsliceeq_%s(a, b []%s) bool {\n\tif len(a) != len(b) {\n\t\treturn false\n\t}\n\tfor i := range a {\n\t\tif a[i] != b[i] {\n\t\t\treturn false\n\t\t}\n\t}\n\treturn true\n}\n\n", t, t)
 	}
+	if g.needValue {
+		vq := "value."
+		imp := "\t\"github.com/whatap/golib/lang/value\"\n"
+		if pk.Types.Name() == "value" {
+			vq, imp = "", ""
+		}
+		hdr := buf.String()
+		hdr = strings.Replace(hdr, "\t\"github.com/whatap/golib/io\"\n", "\t\"github.com/whatap/golib/io\"\n"+imp, 1)
+		buf.Reset()
+		buf.WriteString(hdr)
+		fmt.Fprintf(&buf, "// vvalueeq: both nil, or same type and equal content (executable: same encoding; verifier: valeq)\nfunc vvalueeq(a, b %sValue) bool {\n\tif a == nil || b == nil {\n\t\treturn a == nil && b == nil\n\t}\n\treturn bytes.Equal(vvalbytes(a), vvalbytes(b))\n}\n\nfunc vvalueeq_MapValue(a, b *%sMapValue) bool {\n\tif a == nil || b == nil {\n\t\treturn a == nil && b == nil\n\t}\n\treturn bytes.Equal(vvalbytes(a), vvalbytes(b))\n}\n\nfunc vvalbytes(v %sValue) []byte {\n\to := io.NewDataOutputX()\n\t%sWriteValue(o, v)\n\treturn o.ToByteArray()\n}\n\n", vq, vq, vq, vq)
+	}
 	buf.Write(body.Bytes())
 	names = nil
 	for _, n := range names {
@@ -115,6 +128,7 @@ type rtGen struct {
 	funcs  map[string]*ast.FuncDecl
 	ctors  map[string]*ast.FuncDecl
 	sliceTypes map[string]bool
+	needValue bool
 }
 
 func (g *rtGen) hasFunc(name string) bool { _, ok := g.funcs[name]; return ok }
@@ -264,6 +278,20 @@ func (g *rtGen) pureCond(e ast.Expr, recv string) bool {
 			if tv, has := g.pk.TypesInfo.Types[x.Fun]; has && tv.IsType() {
 				return true
 			}
+			// a method of the receiver applied to literals (e.g. this.IsTrue(4)) is a function of the receiver's fields
+			if sel, isSel := x.Fun.(*ast.SelectorExpr); isSel {
+				if id, isID := sel.X.(*ast.Ident); isID && id.Name == recv {
+					lits := true
+					for _, a := range x.Args {
+						if _, isLit := a.(*ast.BasicLit); !isLit {
+							lits = false
+						}
+					}
+					if lits {
+						return true
+					}
+				}
+			}
 			ok = false
 			return false
 		case *ast.Ident:
@@ -321,20 +349,36 @@ func (g *rtGen) collect(fd *ast.FuncDecl, prefix string, guard []string, depth i
 					}
 					continue
 				}
-				if !strings.HasPrefix(sel.Sel.Name, "Write") || len(call.Args) != 1 {
+				if !strings.HasPrefix(sel.Sel.Name, "Write") {
 					continue
 				}
-				path, ok := g.fieldOfArg(call.Args[0], recv)
+				argIdx := 0
+				if len(call.Args) == 2 {
+					// function form pkg.WriteValue(out, recv.F)
+					if _, isPkg := sel.X.(*ast.Ident); !isPkg {
+						continue
+					}
+					if id := sel.X.(*ast.Ident); id != nil {
+						if _, ok := g.pk.TypesInfo.Uses[id].(*types.PkgName); !ok {
+							continue
+						}
+					}
+					argIdx = 1
+				} else if len(call.Args) != 1 {
+					continue
+				}
+				path, ok := g.fieldOfArg(call.Args[argIdx], recv)
 				if !ok {
 					continue
 				}
-				tv := g.pk.TypesInfo.Types[call.Args[0]]
+				tv := g.pk.TypesInfo.Types[call.Args[argIdx]]
 				ft := g.fieldType(fd, path)
 				_ = tv
 				c := carried{field: prefix + path, guard: strings.Join(guard, " && "), typ: ft}
 				c.kind = g.kindOf(ft)
+				c.viaArray = strings.HasSuffix(sel.Sel.Name, "Array")
 				// a narrowing conversion between the field and the wire makes plain equality too strong: skip those
-				if ce, isConv := call.Args[0].(*ast.CallExpr); isConv && c.kind == "scalar" {
+				if ce, isConv := call.Args[argIdx].(*ast.CallExpr); isConv && c.kind == "scalar" {
 					if at, ok := g.pk.TypesInfo.Types[ce]; ok && ft != nil {
 						ai, ok1 := numOf(at.Type)
 						fi, ok2 := numOf(ft)
@@ -394,6 +438,11 @@ func (g *rtGen) fieldType(fd *ast.FuncDecl, path string) types.Type {
 func (g *rtGen) kindOf(t types.Type) string {
 	if t == nil {
 		return "skip"
+	}
+	if ts := t.String(); ts == "github.com/whatap/golib/lang/value.Value" {
+		return "value"
+	} else if ts == "*github.com/whatap/golib/lang/value.MapValue" {
+		return "mapvalue"
 	}
 	switch u := t.Underlying().(type) {
 	case *types.Basic:
@@ -492,6 +541,13 @@ func (g *rtGen) harness(w *bytes.Buffer, tn string, prop string) {
 	for _, r := range ov.Requires {
 		fmt.Fprintf(w, "//@   requires %s\n", r)
 	}
+	seenReq := map[string]bool{}
+	for _, c := range cs {
+		if c.viaArray && !seenReq[c.field] {
+			seenReq[c.field] = true
+			fmt.Fprintf(w, "//@   requires len(p.%s) <= 32767 -- the typed-array count is a signed 16-bit field\n", c.field)
+		}
+	}
 	fmt.Fprintf(w, "\n")
 	fmt.Fprintf(w, "func verif_rt_%s(p *%s) {\n", tn, tn)
 	fmt.Fprintf(w, "\tout := io.NewDataOutputX()\n\tp.Write(out)\n\tin := io.NewDataInputX(out.ToByteArray())\n\tq := new(%s)\n", tn)
@@ -517,6 +573,12 @@ func (g *rtGen) harness(w *bytes.Buffer, tn string, prop string) {
 		case strings.HasPrefix(c.kind, "narrow:"):
 			t := strings.TrimPrefix(c.kind, "narrow:")
 			a = fmt.Sprintf("vassert(%s(q.%s) == %s(p.%s)) // carried with the width of the wire field", t, c.field, t, c.field)
+		case c.kind == "value":
+			g.needValue = true
+			a = fmt.Sprintf("vassert(vvalueeq(q.%s, p.%s))", c.field, c.field)
+		case c.kind == "mapvalue":
+			g.needValue = true
+			a = fmt.Sprintf("vassert(vvalueeq_MapValue(q.%s, p.%s))", c.field, c.field)
 		case c.kind == "slice":
 			et := types.TypeString(c.typ.Underlying().(*types.Slice).Elem(), func(*types.Package) string { return "" })
 			g.sliceTypes[et] = true
